@@ -501,6 +501,48 @@ def model_delays(ex):
     return out
 
 
+def header_sequence(ctx, ex, dist):
+    """Stateful sequence: destripe(neuropixel_version=v) builds its header internally; a caller that has
+    edited, in place, the header / table it obtained earlier must not change later results.  Run last."""
+    import neuropixel
+    v = V()
+    delays = model_delays(ex)
+    fs, ns = 30000, 2048
+    t = np.arange(ns) / fs
+    dist["header_sequences"] = 0
+    for gen, ver in (("NP1", 1), ("NP2", 2)):
+        u = stripe_waveform("burst", fs, False, ns, 21)
+        st = np.stack([u(t + s / fs) for s in delays[gen]]) * 200e-6
+        ref = temporal_ref(fs, False, st)
+        case = {"kind": "header_sequence", "version": ver}
+        try:
+            with warnings.catch_warnings():
+                warnings.simplefilter("ignore")
+                y0 = v.destripe(st.copy(), fs, neuropixel_version=ver, k_filter=False)
+                h = neuropixel.trace_header(version=ver)
+                h["sample_shift"] *= 0                      # the caller's own copy, edited in place
+                h["sample_shift"] += 0.5
+                ss, adc = neuropixel.adc_shifts(version=ver)
+                ss += 3
+                adc *= 0
+                y1 = v.destripe(st.copy(), fs, neuropixel_version=ver, k_filter=False)
+                tbl = impl_adc(ver, 384)
+        except Exception as e:
+            ctx.fail("header sequence raised %r" % (e,), case, {"kind": "exception"})
+            continue
+        dist["header_sequences"] += 1
+        att0, att1 = -db(y0, ref), -db(y1, ref)
+        ctx.measurements.setdefault("stripe_attenuation_after_header_edit_db", {})[gen] = \
+            [round(float(att0), 1), round(float(att1), 1)]
+        if att1 < 40.0 or np.max(np.abs(y1 - y0)) > TOL * float(np.max(np.abs(ref))):
+            ctx.fail("after the caller edited, in place, a header obtained from trace_header(), "
+                     "destripe(neuropixel_version=%s) without h changed: stripe attenuation %.1f dB before, %.1f dB after"
+                     % (ver, att0, att1), case, {"kind": "header_aliasing"})
+        m = ex.run_many([[7, ver, 384]], nproc=1)[0]
+        if tbl != m:
+            ctx.disagree("adc_shifts returns a different table after a caller edited an earlier result in place", case)
+
+
 def measure(ctx, delays):
     v = V()
     res = {"stripe_attenuation_db": {}, "stripe_attenuation_whole_window_db": {}, "stripe_with_noise_db": {}, "spike_kept": {}}
@@ -786,6 +828,14 @@ def gen_destripe_cases(ctx):
         cases.append({"kind": "destripe", "gen": gens[i % 4], "lfp": lfp, "fs": 2500 if lfp else 30000,
                       "k_filter": bool(i % 2 == 0), "labels": gen_labels(rng, kind), "label_kind": kind,
                       "ns": rng.choice([256, 300, 401]), "seed": rng.randrange(10 ** 6)})
+    # odd numbers of channels inside / outside the brain, median referencing
+    for i, k in enumerate((21, 1, 101)):
+        lab = [0] * 384
+        for j in range(384 - k, 384):
+            lab[j] = 3
+        cases.append({"kind": "destripe", "gen": gens[i % 4], "lfp": i == 1, "fs": 2500 if i == 1 else 30000,
+                      "k_filter": False, "labels": lab, "label_kind": "top_odd_%d" % k,
+                      "ns": 256, "seed": rng.randrange(10 ** 6)})
     # without labels / without a probe version (no re-alignment)
     for i, (lab, nov, lfp) in enumerate([(None, False, False), (None, True, False), ("mixed", True, False),
                                          (None, False, True), ("bad_only", False, False), ("top", True, False)]):
@@ -943,6 +993,16 @@ def run(ctx):
                      {"kind": "kfilt_pad_gt_nx" if pad > nx else "exception"})
             continue
         dist["kfilt_padding"] += 1
+        try:
+            with warnings.catch_warnings():
+                warnings.simplefilter("ignore")
+                af = V().fk(xk.copy(), si=0.002, dx=1, vbounds=[2, 4], ntr_pad=pad, ntr_tap=0, lagc=None)
+            if af.shape != xk.shape:
+                ctx.fail("fk returned shape %s for an input of shape %s (ntr_pad=%d)" % (af.shape, xk.shape, pad),
+                         dict(case, fn="fk"), {"kind": "kfilt_pad_gt_nx" if pad > nx else "kfilt_shape"})
+        except Exception as e:
+            ctx.fail("fk with padding raised %r" % (e,), dict(case, fn="fk"),
+                     {"kind": "kfilt_pad_gt_nx" if pad > nx else "exception"})
         if a.shape != xk.shape:
             ctx.fail("kfilt returned shape %s for an input of shape %s (ntr_pad=%d)" % (a.shape, xk.shape, pad), case,
                      {"kind": "kfilt_pad_gt_nx" if pad > nx else "kfilt_shape"})
@@ -1015,6 +1075,11 @@ def run(ctx):
             ctx.fail("destripe output differs from: temporal filter, ADC re-alignment, interpolation, then the spatial "
                      "filter applied to exactly the channels with label != 3 (model's index vector), in this order",
                      desc, {"kind": "destripe_labels"})
+        # k_filter=False: referencing leaves a zero median over the channels inside the brain (black box)
+        if not case["k_filter"] and len(inside) and \
+                np.max(np.abs(np.median(y[inside], axis=0))) > TOL * scale:
+            ctx.fail("destripe(k_filter=False): the median over the %d channels inside the brain is not zero"
+                     % len(inside), desc, {"kind": "destripe_median"})
         # label-3 rows are not inputs of the spatial filter: change them, nothing else moves
         if outside and not any(l in (1, 2) for l in case["labels"]):
             x2 = x.copy()
@@ -1092,6 +1157,8 @@ def run(ctx):
         measure(ctx, model_delays(ex))
     except Exception as e:
         ctx.fail("measurement run raised %r" % (e,), {"kind": "measure"}, {"kind": "exception"})
+
+    header_sequence(ctx, ex, dist)
 
     return common.finish(
         ctx, TRUSTED,
@@ -1177,11 +1244,20 @@ def replay(ctx, data):
         d_all = float(np.max(np.abs(y - exp)))
         print("outside channels:", outside[:20], "max change on them:", d_out, "max deviation from composition:", d_all)
         return 1 if max(d_out, d_all) > TOL * scale else 0
+    if kind == "header_sequence":
+        n0 = len(ctx.oracle_failures)
+        header_sequence(ctx, ex, {})
+        print(ctx.measurements.get("stripe_attenuation_after_header_edit_db"))
+        print([f["what"] for f in ctx.oracle_failures[n0:]])
+        return 1 if (len(ctx.oracle_failures) > n0 or ctx.disagreements) else 0
     if kind in ("kfilt_padding", "destripe_few_inside"):
         if kind == "kfilt_padding":
             xk = np.random.default_rng(0).standard_normal((inp["nx"], 12))
             try:
-                a = V().kfilt(xk.copy(), ntr_pad=inp["pad"], ntr_tap=0, lagc=inp["lagc"])
+                if inp.get("fn") == "fk":
+                    a = V().fk(xk.copy(), si=0.002, dx=1, vbounds=[2, 4], ntr_pad=inp["pad"], ntr_tap=0, lagc=None)
+                else:
+                    a = V().kfilt(xk.copy(), ntr_pad=inp["pad"], ntr_tap=0, lagc=inp["lagc"])
                 print("kfilt input shape", xk.shape, "output shape", a.shape)
                 return 1 if a.shape != xk.shape else 0
             except Exception as e:
